@@ -61,6 +61,10 @@ func main() {
 			fmt.Println(len(cx.Findings), "candidates")
 			return
 		}
+		if *xref == "type-coverage" {
+			xrefTypeCoverage(p)
+			return
+		}
 		if *xref == "const-index" {
 			xrefConstIndex(p)
 			return
